@@ -267,7 +267,9 @@ theorem exec_frames_nil (cfg : Cfg) (n : Nat) (s : StR) (conn : Nat) (f : Fed) :
 theorem exec_frames_cons (cfg : Cfg) (n : Nat) (s : StR) (conn : Nat) (b : Bytes) (bs : List Bytes) (f : Fed) :
     exec cfg (n + 1) s (.frames conn (b :: bs) f) =
       match corrId b with
-      | none => ({ s with core := (lostStep s.core).1 }, .ob .raiseUnderflow :: obs (lostStep s.core).2)
+      | none =>
+        if s.sync = .none then ({ s with core := (lostStep s.core).1 }, .ob .raiseUnderflow :: obs (lostStep s.core).2)
+        else ((exec cfg n s .lost).1, .ob .raiseUnderflow :: (exec cfg n s .lost).2)
       | some id =>
         let c1 := { s.core with reqs := s.core.reqs.filter (fun r => r.id != id) }
         let r1 : StR × List ObR :=
@@ -291,26 +293,26 @@ theorem flatFrames_cons_some (c : St) (conn : Nat) (b : Bytes) (bs : List Bytes)
   simp only [flatFrames, handleFrames, h]
   split <;> (try split) <;> simp [List.append_assoc]
 
-theorem exec_frames (cfg : Cfg) (conn : Nat) (f : Fed) : ∀ (fs : List Bytes) (n : Nat) (s : StR), NoHooks s →
+theorem exec_frames (cfg : Cfg) (conn : Nat) (f : Fed) : ∀ (fs : List Bytes) (n : Nat) (s : StR), NoHooks s → s.sync = .none →
     fs.length + s.core.reqs.length + 3 ≤ n →
     exec cfg n s (.frames conn fs f) =
       ({ s with core := (flatFrames s.core conn fs f).1 }, obs (flatFrames s.core conn fs f).2) := by
   intro fs
   induction fs with
   | nil =>
-    intro n s _ hn
+    intro n s _ _ hn
     match n, hn with
     | n + 1, _ =>
       rw [exec_frames_nil]
       simp only [flatFrames, handleFrames]
       split <;> simp [obs]
   | cons b bs ih =>
-    intro n s hh hn
+    intro n s hh hsy hn
     match n, hn with
     | n + 2, hn =>
       rw [exec_frames_cons]
       cases hid : corrId b with
-      | none => simp [flatFrames, handleFrames, hid, obs]
+      | none => simp [flatFrames, handleFrames, hid, obs, hsy]
       | some id =>
         simp only
         rw [flatFrames_cons_some _ _ _ _ _ id hid]
@@ -324,11 +326,11 @@ theorem exec_frames (cfg : Cfg) (conn : Nat) (f : Fed) : ∀ (fs : List Bytes) (
             simp at hn ⊢; omega
           rw [exec_fireAll cfg _ _ (n + 1) _ (by exact hh) hfl]
           simp only
-          rw [ih (n + 1) _ (by exact hh) hn']
+          rw [ih (n + 1) _ (by exact hh) (by exact hsy) hn']
           simp [handleResponse, hany, obs, List.map_map, Function.comp_def]
         · rw [if_neg hany]
           simp only
-          rw [ih (n + 1) _ (by exact hh) hn']
+          rw [ih (n + 1) _ (by exact hh) (by exact hsy) hn']
           simp [handleResponse, hany, obs]
 
 
@@ -337,12 +339,12 @@ def need (s : StR) : Ev → Nat
   | .bytesIn chunk => s.core.reqs.length + (feed s.core.rbuf chunk).frames.length + 10
   | _ => s.core.reqs.length + 10
 
-theorem stepR_flat (cfg : Cfg) (s : StR) (e : Ev) (hh : NoHooks s) (hst : s.stubborn = false) (h : SInv s.core) (fuel : Nat)
-    (hf : need s e ≤ fuel) :
-    (stepRWith cfg fuel s (.flat e)).1 = { core := (step cfg s.core e).1, hooks := [], stubborn := false } ∧
+theorem stepR_flat (cfg : Cfg) (s : StR) (e : Ev) (hh : NoHooks s) (hst : s.stubborn = false) (hsy : s.sync = .none)
+    (h : SInv s.core) (fuel : Nat) (hf : need s e ≤ fuel) :
+    (stepRWith cfg fuel s (.flat e)).1 = { core := (step cfg s.core e).1, hooks := [], stubborn := false, sync := .none } ∧
     plain (stepRWith cfg fuel s (.flat e)).2 = (step cfg s.core e).2 := by
   have hh' : s.hooks = [] := hh
-  have hs : ({ core := s.core, hooks := [], stubborn := false } : StR) = s := by cases s; simp_all
+  have hs : ({ core := s.core, hooks := [], stubborn := false, sync := .none } : StR) = s := by cases s; simp_all
   obtain ⟨n, rfl⟩ : ∃ n, fuel = n + 1 := ⟨fuel - 1, by simp [need] at hf; cases e <;> simp [need] at hf <;> omega⟩
   cases e with
   | make id ex =>
@@ -351,19 +353,19 @@ theorem stepR_flat (cfg : Cfg) (s : StR) (e : Ev) (hh : NoHooks s) (hst : s.stub
     have hfire : ∀ (s' : StR) (k' : Nat) (i : Int) (r : Res), s'.hooks = [] →
         exec cfg (k + 1) s' (.fire k' i r) = (s', [.ob (.fire k' i r)]) := fun s' k' i r h' => exec_fire cfg k s' h' k' i r
     by_cases hd : s.core.reqs.any (fun r => r.id == id) = true
-    · simp [stepRWith, exec, step, hd, hs, plain]
+    · simp [stepRWith, exec, step, hd, hs, hsy, plain]
     · by_cases hc : s.core.closed = true
-      · simp [stepRWith, exec, step, hd, hc, hh', hst, hfire, plain]
+      · simp [stepRWith, exec, step, hd, hc, hh', hst, hsy, hfire, plain]
       · cases hp : s.core.proto with
         | some conn =>
           by_cases hw : s.core.wfail = true
-          · simp [stepRWith, exec, step, hd, hc, hp, hw, hh', hst, hfire, plain, sendObs, keepAfterSend]
+          · simp [stepRWith, exec, step, hd, hc, hp, hw, hh', hst, hsy, hfire, plain, sendObs, keepAfterSend]
           · cases ex <;> by_cases hl : s.core.losing = true <;>
-              simp [stepRWith, exec, step, hd, hc, hp, hw, hl, hh', hst, hfire, plain, sendObs, keepAfterSend]
+              simp [stepRWith, exec, step, hd, hc, hp, hw, hl, hh', hst, hsy, hfire, plain, sendObs, keepAfterSend]
         | none =>
           by_cases hco : s.core.connector = .none
-          · simp [stepRWith, exec, step, hd, hc, hp, hco, hh', hst, plain, plain_append, plain_obs, connect_, tryConnect, obs]
-          · simp [stepRWith, exec, step, hd, hc, hp, hco, hh', hst, plain]
+          · simp [stepRWith, exec, step, hd, hc, hp, hco, hh', hst, hsy, plain, plain_append, plain_obs, connect_, tryConnect, obs]
+          · simp [stepRWith, exec, step, hd, hc, hp, hco, hh', hst, hsy, plain]
   | cancel id =>
     by_cases hany : s.core.reqs.any (fun r => r.id == id && !r.cancelled) = true
     · simp only [stepRWith, exec, step, hany, if_true]
@@ -371,7 +373,7 @@ theorem stepR_flat (cfg : Cfg) (s : StR) (e : Ev) (hh : NoHooks s) (hst : s.stub
         have : (s.core.reqs.filter (fun r => r.id == id && !r.cancelled)).length ≤ s.core.reqs.length := List.length_filter_le _ _
         simp [need] at hf ⊢; omega
       rw [exec_fireAll cfg _ _ n _ (by exact hh) hlen]
-      simp [hh', hst, plain_map_ob, List.map_map, Function.comp_def]
+      simp [hh', hst, hsy, plain_map_ob, List.map_map, Function.comp_def]
     · simp [stepRWith, exec, step, hany, hs, plain]
   | close =>
     by_cases hc : s.core.closed = true
@@ -387,26 +389,26 @@ theorem stepR_flat (cfg : Cfg) (s : StR) (e : Ev) (hh : NoHooks s) (hst : s.stub
       | some conn =>
         simp only [stepRWith, exec, step, hc, hp, if_false]
         rw [hcl { s with core := { s.core with closed := true, losing := true, proto := some conn } } hh' rfl]
-        simp [hh', hst, plain, plain_append, plain_obs]
+        simp [hh', hst, hsy, plain, plain_append, plain_obs]
       | none =>
         simp only [stepRWith, exec, step, hc, hp, if_false]
         cases hco : s.core.connector with
         | none =>
           simp only []
           rw [hcl { s with core := { s.core with closed := true, connector := .none, proto := none } } hh' rfl]
-          simp [hh', hst, plain, plain_append, plain_obs]
+          simp [hh', hst, hsy, plain, plain_append, plain_obs]
         | attempt =>
           simp only []
           rw [hcl { s with core := { s.core with closed := true, connector := .stale, proto := none } } hh' rfl]
-          simp [hh', hst, plain, plain_append, plain_obs]
+          simp [hh', hst, hsy, plain, plain_append, plain_obs]
         | backoff d =>
           simp only []
           rw [hcl { s with core := { s.core with closed := true, connector := .stale, proto := none } } hh' rfl]
-          simp [hh', hst, plain, plain_append, plain_obs]
+          simp [hh', hst, hsy, plain, plain_append, plain_obs]
         | stale =>
           simp only []
           rw [hcl { s with core := { s.core with closed := true, connector := .stale, proto := none } } hh' rfl]
-          simp [hh', hst, plain, plain_append, plain_obs]
+          simp [hh', hst, hsy, plain, plain_append, plain_obs]
   | connOk =>
     by_cases hatt : s.core.connector = .attempt
     · have hp : s.core.proto = none := by
@@ -438,7 +440,7 @@ theorem stepR_flat (cfg : Cfg) (s : StR) (e : Ev) (hh : NoHooks s) (hst : s.stub
         exact hgen _ hun _
       simp only [List.nil_append]
       rw [hfilt, hflat]
-      exact ⟨by simp [hh', hst], plain_obs _⟩
+      exact ⟨by simp [hh', hst, hsy], plain_obs _⟩
     · simp [stepRWith, step, hatt, hs, plain]
   | bytesIn chunk =>
     cases hp : s.core.proto with
@@ -448,29 +450,29 @@ theorem stepR_flat (cfg : Cfg) (s : StR) (e : Ev) (hh : NoHooks s) (hst : s.stub
       · simp [stepRWith, step, hp, hl, hs, plain]
       · have hn : (feed s.core.rbuf chunk).frames.length + s.core.reqs.length + 3 ≤ n + 1 := by simp [need] at hf; omega
         simp only [stepRWith, step, hp, hl, Bool.false_eq_true, if_false]
-        rw [exec_frames cfg conn _ _ (n + 1) s hh hn]
+        rw [exec_frames cfg conn _ _ (n + 1) s hh hsy hn]
         simp only [flatFrames, plain_obs]
-        split <;> (try split) <;> simp [hh', hst]
-  | connFail => simp [stepRWith, hh', hst, plain_obs]
-  | advance dt => simp [stepRWith, hh', hst, plain_obs]
-  | lost => simp [stepRWith, hh', hst, plain_obs]
-  | disconnect => simp [stepRWith, hh', hst, plain_obs]
-  | updateMetadata a b => simp [stepRWith, hh', hst, plain_obs]
-  | writeFail b => simp [stepRWith, hh', hst, plain_obs]
+        split <;> (try split) <;> simp [hh', hst, hsy]
+  | connFail => simp [stepRWith, hh', hst, hsy, plain_obs]
+  | advance dt => simp [stepRWith, hh', hst, hsy, plain_obs]
+  | lost => simp [stepRWith, hh', hst, hsy, plain_obs]
+  | disconnect => simp [stepRWith, hh', hst, hsy, plain_obs]
+  | updateMetadata a b => simp [stepRWith, hh', hst, hsy, plain_obs]
+  | writeFail b => simp [stepRWith, hh', hst, hsy, plain_obs]
 
 
 /-- Without callbacks the re-entrant model IS the flat model: for every event list there is an amount of
     fuel from which on the observations (markers dropped) are those of `Afkak.BrokerClient.trace`. -/
-theorem traceR_flat (cfg : Cfg) (evs : List Ev) : ∀ (s : StR), NoHooks s → s.stubborn = false → SInv s.core →
+theorem traceR_flat (cfg : Cfg) (evs : List Ev) : ∀ (s : StR), NoHooks s → s.stubborn = false → s.sync = .none → SInv s.core →
     ∃ N, ∀ fuel, N ≤ fuel →
       (traceRWith cfg fuel s (evs.map .flat)).map (fun t => plain t.2) = (trace cfg s.core evs).map (·.2) := by
   induction evs with
-  | nil => intro s _ _ _; exact ⟨0, fun _ _ => rfl⟩
+  | nil => intro s _ _ _ _; exact ⟨0, fun _ _ => rfl⟩
   | cons e es ih =>
-    intro s hh hst h
-    obtain ⟨N2, h2⟩ := ih { core := (step cfg s.core e).1, hooks := [], stubborn := false } rfl rfl (sinv_step cfg s.core e h)
+    intro s hh hst hsy h
+    obtain ⟨N2, h2⟩ := ih { core := (step cfg s.core e).1, hooks := [], stubborn := false, sync := .none } rfl rfl rfl (sinv_step cfg s.core e h)
     refine ⟨max (need s e) N2, fun fuel hf => ?_⟩
-    have h1 := stepR_flat cfg s e hh hst h fuel (by omega)
+    have h1 := stepR_flat cfg s e hh hst hsy h fuel (by omega)
     simp only [List.map_cons, traceRWith, trace]
     rw [h1.1, h1.2, h2 fuel (by omega)]
 
